@@ -121,6 +121,9 @@ struct Block {
     size_t size;
     long p0, q0; // offsets of region A and region B
 
+    // raw: the logged memory of a recorded event (replay of a single event)
+    explicit Block(Cells const& m) : p0(0), q0(0) { init(m); }
+
     Block(Cells const& A, Cells const& B)
     {
         Cells m;
@@ -131,6 +134,10 @@ struct Block {
         q0 = (long)m.size();
         m.insert(m.end(), B.begin(), B.end());
         for (long g : GUARD) { m.push_back(g); }
+        init(m);
+    }
+    void init(Cells const& m)
+    {
         size = m.size();
         base = static_cast<C*>(std::malloc((size + 64) * sizeof(C)));
         for (size_t i = 0; i < size; ++i) { base[i] = F<C>::from_cell(m[i]); }
@@ -154,14 +161,23 @@ struct Block {
     }
 };
 
+template <typename C, typename Fn>
+static void run_block(Block<C>& blk, char const* op, int cv, long p, long q, long n, long c, Fn fn);
+
 // run one call and log it.  fn(block, P, Q) performs the call and returns the projected result.
 template <typename C, typename Fn>
 static void call(char const* op, int cv, Cells const& A, Cells const& B, long po, long qo, bool q_in_a, long n, long c,
                  Fn fn)
 {
     Block<C> blk(A, B);
-    long p   = blk.p0 + po;
-    long q   = (q_in_a ? blk.p0 : blk.q0) + qo;
+    long p = blk.p0 + po;
+    long q = (q_in_a ? blk.p0 : blk.q0) + qo;
+    run_block<C>(blk, op, cv, p, q, n, c, fn);
+}
+
+template <typename C, typename Fn>
+static void run_block(Block<C>& blk, char const* op, int cv, long p, long q, long n, long c, Fn fn)
+{
     json pre = blk.snap();
     long ret = fn(blk, blk.base + p, blk.base + q);
     json e;
@@ -470,6 +486,60 @@ static void do_random(long count, uint64_t seed)
     }
 }
 
+// re-execute one recorded event (tools/check.py --replay): same memory image, same pointers, same arguments
+template <typename C>
+static void do_event(json const& ev)
+{
+    using B       = Block<C>;
+    using X       = F<C>;
+    std::string o = ev["op"];
+    int cv        = ev["cv"];
+    long p = ev["p"], q = ev["q"], n = ev["n"], c = ev["c"];
+    size_t z = (size_t)n;
+    B blk(cells(ev["mem"]));
+    auto go = [&](auto fn) { run_block<C>(blk, o.c_str(), cv, p, q, n, c, fn); };
+    if (o == "strlen") {
+        go([&](B&, C* x, C*) { return (long)X::len(x); });
+    } else if (o == "strcmp") {
+        go([&](B&, C* x, C* y) { return sign(X::cmp(x, y)); });
+    } else if (o == "strncmp") {
+        go([&](B&, C* x, C* y) { return sign(X::ncmp(x, y, z)); });
+    } else if (o == "strcpy") {
+        go([&](B& k, C* x, C* y) { return k.off(X::cpy(x, y)); });
+    } else if (o == "strncpy") {
+        go([&](B& k, C* x, C* y) { return k.off(X::ncpy(x, y, z)); });
+    } else if (o == "strcat") {
+        go([&](B& k, C* x, C* y) { return k.off(X::cat(x, y)); });
+    } else if (o == "strncat") {
+        go([&](B& k, C* x, C* y) { return k.off(X::ncat(x, y, z)); });
+    } else if (o == "strchr") {
+        go([&](B& k, C* x, C*) { return cv ? k.off(X::chr((C const*)x, c)) : k.off(X::chr(x, c)); });
+    } else if (o == "strrchr") {
+        go([&](B& k, C* x, C*) { return cv ? k.off(X::rchr((C const*)x, c)) : k.off(X::rchr(x, c)); });
+    } else if (o == "strspn") {
+        go([&](B&, C* x, C* y) { return (long)X::spn(x, y); });
+    } else if (o == "strcspn") {
+        go([&](B&, C* x, C* y) { return (long)X::cspn(x, y); });
+    } else if (o == "strpbrk") {
+        go([&](B& k, C* x, C* y) { return cv ? k.off(X::pbrk((C const*)x, (C const*)y)) : k.off(X::pbrk(x, y)); });
+    } else if (o == "strstr") {
+        go([&](B& k, C* x, C* y) { return cv ? k.off(X::str((C const*)x, (C const*)y)) : k.off(X::str(x, y)); });
+    } else if (o == "memcpy") {
+        go([&](B& k, C* x, C* y) { return k.off(X::mcpy(x, y, z)); });
+    } else if (o == "memmove") {
+        go([&](B& k, C* x, C* y) { return k.off(X::mmove(x, y, z)); });
+    } else if (o == "memset") {
+        go([&](B& k, C* x, C*) { return k.off(X::mset(x, c, z)); });
+    } else if (o == "memcmp") {
+        go([&](B&, C* x, C* y) { return sign(X::mcmp(x, y, z)); });
+    } else if (o == "memchr") {
+        go([&](B& k, C* x, C*) { return cv ? k.off(X::mchr((C const*)x, c, z)) : k.off(X::mchr(x, c, z)); });
+    } else {
+        std::fprintf(stderr, "UNSUPPORTED event op %s\n", o.c_str());
+        std::exit(2);
+    }
+}
+
 int main(int argc, char** argv)
 {
     std::ios::sync_with_stdio(false);
@@ -484,6 +554,23 @@ int main(int argc, char** argv)
                 do_vec<char>(v);
             } else {
                 do_vec<wchar_t>(v);
+            }
+        }
+        return 0;
+    }
+    if (argc >= 3 && std::string(argv[1]) == "event") {
+        // the file holds one recorded event; calls without a memory image re-run their whole group
+        for (auto const& ev : vh::read_ndjson(argv[2])) {
+            if (ev.contains("mem")) {
+                if (ev["w"].get<int>() == 0) {
+                    do_event<char>(ev);
+                } else {
+                    do_event<wchar_t>(ev);
+                }
+            } else if (ev.contains("f")) {
+                do_dv(ev["x"], ev["y"]);
+            } else {
+                do_cc(ev["w"], ev["c"]);
             }
         }
         return 0;
